@@ -30,7 +30,10 @@ FN_MOVE_STR = 'Memory_Move__String__char'
 CUT_QUAL = ['Qentem::String<char>::', 'Qentem::Array<', 'Qentem::HArray<', 'Qentem::HashTable<', 'Qentem::StringStream<char>::',
             'Qentem::Digit::', 'Qentem::JSONUtils::UnEscape']
 
-GHOSTS = [('unsigned char', 'g_bad')]
+# g_bad: an Undefined value was stored into a container; g_vend: cursor at the end of the most recent parseValue;
+# g_j: an arbitrary position (universal quantifier on the conclusion side)
+GHOSTS = [('unsigned char', 'g_bad'), ('unsigned int', 'g_vend'), ('unsigned int', 'g_j')]
+PRE = '#define QX_WS(c) ((c) == 32 || (c) == 10 || (c) == 9 || (c) == 13)\n'
 
 
 def _enum(name):
@@ -74,7 +77,7 @@ def parser_core(kinds, entry_req):
         ens.append('%s == %d ==> (*offset >= 1 && content[*offset - 1] == 125)' % (RT, OBJ))    # '}'
     if STR in kinds:
         ens.append('%s == %d ==> (*offset >= 1 && content[*offset - 1] == 34)' % (RT, STR))     # '"'
-    return dict(requires=list(entry_req), ensures=ens, assigns=['*offset', 'g_bad', '__CPROVER_object_whole(stream)'])
+    return dict(requires=list(entry_req), ensures=ens, assigns=['*offset', 'g_bad', 'g_vend', '__CPROVER_object_whole(stream)'])
 
 
 def enforced(core, loops=None):
@@ -82,6 +85,7 @@ def enforced(core, loops=None):
     s['buffers'] = [('content', 'length')]
     s['refs'] = ['stream', 'offset']
     s['ret_fields'] = ['type_']
+    s['native_both'] = True     # postconditions mention ghosts: the native replay also runs the lowered copy, which carries the ghost code
     s['harness_setup'] = ['o_stream.storage_ = 0; o_stream.length_ = 0; o_stream.capacity_ = 0;']
     if loops is not None:
         s['loops'] = loops
@@ -97,7 +101,7 @@ def cex_stub(kinds):
     for kk, ch in ((ARR, 93), (OBJ, 125), (STR, 34)):
         if kk in kinds:
             t += '  __CPROVER_assume(k != %d || (o >= 1 && content[o - 1] == %d));\n' % (kk, ch)
-    t += '  *offset = o; v.type_ = k; return v;'
+    t += '  *offset = o; g_vend = o; v.type_ = k; return v;'
     return t
 
 
@@ -112,6 +116,9 @@ def callee(core, kinds=None):
 
 # every call site has a non-empty input (Parse returns early on length 0) and a cursor that is at most at the end
 CORE_VAL = parser_core(KINDS, ['length >= 1', '*offset <= length'])
+CORE_VAL['ensures'] = CORE_VAL['ensures'] + ['g_vend == *offset']
+CORE_VAL['assigns'] = CORE_VAL['assigns'] + ['g_vend']
+CORE_VAL['ghost_returns'] = ['g_vend = *offset']
 CORE_ARR = parser_core([UNDEF, ARR], ['length >= 1', '*offset <= length'])
 CORE_OBJ = parser_core([UNDEF, OBJ], ['length >= 1', '*offset <= length'])
 
@@ -129,30 +136,36 @@ def kw_loop(var, which, n):
 LOOPS_VAL = {0: kw_loop('true_string', 'True', 4), 1: kw_loop('false_string', 'False', 5), 2: kw_loop('null_string', 'Null', 4)}
 LOOPS_ARR = {0: dict(invariant=['*offset <= length', '*offset >= __CPROVER_loop_entry(*offset)', 'g_bad == __CPROVER_loop_entry(g_bad)',
                                 'value.type_ == %d' % ARR, 'arr == &value.array_'],
-                     decreases='length - *offset', assigns='*offset, g_bad, __CPROVER_object_whole(stream), value.array_, qx_tmp1')}
+                     decreases='length - *offset', assigns='*offset, g_bad, g_vend, __CPROVER_object_whole(stream), value.array_, qx_tmp1')}
 LOOPS_OBJ = {0: dict(invariant=['*offset <= length', '*offset >= __CPROVER_loop_entry(*offset)', 'g_bad == __CPROVER_loop_entry(g_bad)',
                                 'value.type_ == %d' % OBJ, 'obj == &value.object_'],
-                     decreases='length - *offset', assigns='*offset, g_bad, __CPROVER_object_whole(stream), value.object_, qx_tmp1')}
+                     decreases='length - *offset', assigns='*offset, g_bad, g_vend, __CPROVER_object_whole(stream), value.object_, qx_tmp1')}
 
 PARSE_SPEC = dict(
-    buffers=[('content', 'length')], refs=['stream'], ret_fields=['type_'], harness_setup=['o_stream.storage_ = 0; o_stream.length_ = 0; o_stream.capacity_ = 0;'],
+    buffers=[('content', 'length')], refs=['stream'], ret_fields=['type_'], native_both=True, loops={},   # Parse has no loop of its own
+    harness_setup=['o_stream.storage_ = 0; o_stream.length_ = 0; o_stream.capacity_ = 0;'],
     requires=['g_bad == 0'],
     ensures=[kind_in(RT, KINDS),
-             '%s != %d ==> g_bad == 0' % (RT, UNDEF)],
-    assigns=['g_bad', '__CPROVER_object_whole(stream)'])
+             '%s != %d ==> g_bad == 0' % (RT, UNDEF),
+             # whatever follows the value, up to the end of the input, is white space
+             '(%s != %d && g_vend <= g_j && g_j < length) ==> QX_WS(content[g_j])' % (RT, UNDEF)],
+    assigns=['g_bad', 'g_vend', '__CPROVER_object_whole(stream)'])
 
 
 # ------------------------------------------------------------------------------------------------ leaves behind contracts
 def trim_spec(enforce=False):
     s = dict(ensures=['*offset >= __CPROVER_old(*offset)',
                       '__CPROVER_old(*offset) <= end_offset ==> *offset <= end_offset',
-                      '__CPROVER_old(*offset) >= end_offset ==> *offset == __CPROVER_old(*offset)'],
+                      '__CPROVER_old(*offset) >= end_offset ==> *offset == __CPROVER_old(*offset)',
+                      '(__CPROVER_old(*offset) <= g_j && g_j < *offset) ==> QX_WS(str[g_j])',
+                      '*offset < end_offset ==> !QX_WS(str[*offset])'],
              assigns=['*offset'])
     if enforce:
         s['buffers'] = [('str', 'end_offset')]
         s['refs'] = ['offset']
         s['loops'] = {0: dict(invariant=['*offset >= __CPROVER_loop_entry(*offset)', '__CPROVER_loop_entry(*offset) <= end_offset ==> *offset <= end_offset',
-                                         '__CPROVER_loop_entry(*offset) >= end_offset ==> *offset == __CPROVER_loop_entry(*offset)'],
+                                         '__CPROVER_loop_entry(*offset) >= end_offset ==> *offset == __CPROVER_loop_entry(*offset)',
+                                         '(__CPROVER_loop_entry(*offset) <= g_j && g_j < *offset) ==> QX_WS(str[g_j])'],
                               decreases='end_offset - *offset', assigns='*offset')}
     else:
         s['requires'] = ['end_offset == 0 || __CPROVER_r_ok(str, end_offset)', '__CPROVER_w_ok(offset, sizeof(*offset))']
@@ -298,18 +311,18 @@ def parser_jobs(pid):
             ('parseObject', FN_OBJ, CORE_OBJ, LOOPS_OBJ, [FN_VAL],
              'object parser: in bounds (keys are un-escaped inside the buffer), terminates; an accepted object consumed its "}" last and stored no Undefined member; a failed object is Reset')):
         out.append(dict(name='JSONParser.%s' % nm, unit=UNIT, fn=fn, roots=[QP + nm], cut_qual=CUT_QUAL,
-                        specs=all_specs(fn, enforced(core, loops)), replace=LEAVES + others, ghosts=GHOSTS,
+                        specs=all_specs(fn, enforced(core, loops)), replace=LEAVES + others, ghosts=GHOSTS, pre=PRE,
                         solver='cadical', timeout=900, objbits=10, must_have=MUST, clause=clause, cex_K=6, cex_unwind=8, cex_recursive=[FN_VAL, FN_ARR, FN_OBJ], scope_re=SCOPES[pid][0], scope_note=SCOPES[pid][1]))
     out.append(dict(name='JSONParser.Parse', unit=UNIT, fn=FN_PARSE, roots=[QP + 'Parse'], cut_qual=CUT_QUAL,
-                    specs=all_specs(FN_PARSE, PARSE_SPEC), replace=LEAVES + [FN_VAL], ghosts=GHOSTS,
-                    solver='cadical', timeout=600, objbits=10, must_have=['postcondition', 'precondition'], cex_K=6, cex_unwind=9, scope_re=SCOPES[pid][0], scope_note=SCOPES[pid][1],
+                    specs=all_specs(FN_PARSE, PARSE_SPEC), replace=LEAVES + [FN_VAL], ghosts=GHOSTS, pre=PRE,
+                    solver='cadical', timeout=600, objbits=10, must_have=['postcondition', 'precondition'], cex_K=6, cex_unwind=9, cex_recursive=[FN_VAL, FN_ARR, FN_OBJ], scope_re=SCOPES[pid][0], scope_note=SCOPES[pid][1],
                     clause='Parse returns a value only when no Undefined member was stored anywhere in the tree and the whole input was consumed; otherwise Undefined'))
     return out
 
 
 def leaf_jobs():
     """the Value<char> members and TrimLeft the parser proofs rely on, enforced on their real bodies"""
-    out = [dict(name='TrimLeft<char>', unit=UNIT, fn=FN_TRIM, roots=['Qentem::StringUtils::TrimLeft<char, unsigned int>'], specs={FN_TRIM: trim_spec(True)},
+    out = [dict(name='TrimLeft<char>', unit=UNIT, fn=FN_TRIM, roots=['Qentem::StringUtils::TrimLeft<char, unsigned int>'], specs={FN_TRIM: trim_spec(True)}, ghosts=GHOSTS, pre=PRE,
                 solver='cadical', timeout=300, must_have=['postcondition', 'loop_invariant_step', 'loop_decreases', 'pointer_dereference'],
                 clause='white-space skipper stays inside the buffer, terminates, never moves the cursor past end_offset')]
     for nm, fn, q in (('Value(ValueType)', FN_V_TYPE, 'Qentem::Value<char>::Value(Qentem::ValueType)'),
